@@ -280,7 +280,7 @@ func checkC11(c *vlib.Ctx) (string, string) {
 	}
 	methods := []string{"OPTIONS", "GET", "options", "PUT", "HEAD", "POST"}
 	origins := [][]string{nil, {}, {""}, {"https://a.example"}, {"https://evil.example"}, {"https://a.example", "https://b.example"}}
-	acrms := [][]string{nil, {}, {""}, {"PUT"}, {"DELETE"}}
+	acrms := [][]string{nil, {}, {""}, {"PUT"}, {"DELETE"}, {" "}, {"PUT  "}, {"\t\tPUT"}, {"", "PUT"}}
 	acrhs := [][]string{nil, {"x-a"}, {"x-z"}}
 	acrpns := [][]string{nil, {"true"}}
 	var handlers []c11Handler
